@@ -616,3 +616,151 @@ Proof.
     rewrite (get_map_val ctx_tuple), Hg in E; cbn [option_map ctx_tuple t_cons t_mod res_code] in E.
     destruct (x_mod x); [rewrite (Hcn eq_refl), Z.eqb_refl in E|]; discriminate E.
 Qed.
+
+(** ** the callback log only grows *)
+Definition ce (s s' : state) : Prop := exists l, cblog s' = cblog s ++ l.
+Lemma ce_same s s' : cblog s' = cblog s -> ce s s'.
+Proof. intros E. exists []. rewrite app_nil_r. exact E. Qed.
+Lemma ce_trans s1 s2 s3 : ce s1 s2 -> ce s2 s3 -> ce s1 s3.
+Proof. intros (a & A) (b & B). exists (a ++ b). rewrite B, A, app_assoc. reflexivity. Qed.
+
+Lemma expired_handler_ce c s id : ce s (expired_batch_handler c s id).
+Proof.
+  unfold expired_batch_handler. destruct (get id (ctxs s)) as [x|] eqn:Eg; [|apply ce_same; reflexivity].
+  set (pr := if x_brun x then _ else (s, x)).
+  assert (Hpr : ce s (fst pr)).
+  { subst pr. destruct (x_brun x); [|apply ce_same; reflexivity]. simpl.
+    set (act := filter _ (reqs s)). set (sf := fold_left (expire_request c x) act s).
+    assert (Hf : ctxs sf = ctxs s /\ cblog sf = cblog s).
+    { subst sf. generalize act s. clear. induction act as [|[r q] act IH]; intros s; cbn [fold_left]; [split; reflexivity|].
+      destruct (IH (expire_request c x s (r, q))) as (A & B). rewrite A, B. unfold expire_request.
+      assert (S : ctxs (slash c s (x_svc x) (q_prov q)) = ctxs s /\ cblog (slash c s (x_svc x) (q_prov q)) = cblog s).
+      { unfold slash. destruct (get _ (binds s)) as [b|]; [|split; reflexivity]. destruct (b_dep b <? _); [split; reflexivity|].
+        destruct (send _ _ _ _ _); split; reflexivity. }
+      destruct (send _ _ _ _ _); simpl; exact S. }
+    destruct Hf as (Hf1 & Hf2). destruct (x_mod x); [|apply ce_same; exact Hf2].
+    assert (Hg : get id (ctxs sf) = Some x) by (rewrite Hf1; exact Eg).
+    destruct (callback_spec sf id x Hg) as (L & _). eexists. rewrite L, Hf2. reflexivity. }
+  destruct pr as [s1 x1]. simpl in Hpr. cbv zeta. eapply ce_trans; [exact Hpr|]. apply ce_same.
+  destruct (x_state x1 =? 2); destruct (x_state x1 =? 0); try destruct (x_rep x1 && _); reflexivity.
+Qed.
+
+Lemma new_handler_ce s id : ce s (new_batch_handler s id).
+Proof.
+  unfold new_batch_handler. destruct (get id (ctxs s)) as [x|] eqn:Eg; [|apply ce_same; reflexivity].
+  destruct (x_state x =? 0); [|apply ce_same; reflexivity].
+  destruct (filter_provs s x (x_provs x)) as [ps|]; [|apply ce_same; reflexivity].
+  cbv zeta. destruct (_ && _); [|apply ce_same; reflexivity].
+  destruct (debit_all _ _ _); [apply ce_same; reflexivity|].
+  unfold on_paused. destruct (x_mod x); [|apply ce_same; reflexivity]. eexists. reflexivity.
+Qed.
+
+Lemma apply_ce0 c s st : c_msvc c < 0 -> ce s (apply c s st).
+Proof.
+  intros Hm. unfold apply. destruct (exec_step c s st) as [s'| |] eqn:E; try (apply ce_same; reflexivity).
+  assert (MSG : forall txh m s1, exec_msg_plain c s txh m = Okk s1 -> ce s s1).
+  { intros txh m s1 H. destruct m; simpl in H;
+      try (apply ce_same; unfold define, bind, update_binding, set_withdraw, enable, disable, refund_deposit, msg_ctl, k_pause, k_start, k_kill, update_context, withdraw, call, create_context in H;
+           repeat dmn H; inversion H; subst; reflexivity).
+    - unfold call in H. destruct (negb _); [discriminate|].
+      destruct (create_context _ _ _ _ _ _ _ _ _ _ _ _ _ _ _ _) as [[s2 id]|] eqn:E0; [|discriminate]. inversion H; subst.
+      apply ce_same. clear -E0. unfold create_context in E0. repeat dmn E0; inversion E0; subst; reflexivity.
+    - destruct (respond_cb_shape _ _ _ _ _ _ H) as (q & x & x' & _ & _ & Hx & _ & _ & _ & Hcase).
+      destruct Hcase as [(_ & L)|(_ & n & ok & L)]; [apply ce_same; exact L|].
+      destruct (x_mod x); [eexists; exact L|apply ce_same; exact L]. }
+  destruct st; cbn [exec_step] in E.
+  - rewrite (exec_msg_plain_eq _ _ _ _ Hm) in E. eapply MSG. exact E.
+  - destruct (0 <=? dt); [|discriminate]. inversion E; subst. unfold end_block. cbv zeta.
+    set (s1 := fold_left (expired_batch_handler c) _ s).
+    assert (H1 : ce s s1).
+    { subst s1. apply (fold_left_inv (fun t => ce s t)); [|apply ce_same; reflexivity].
+      intros t id Ht. eapply ce_trans; [exact Ht|apply expired_handler_ce]. }
+    set (s2 := fold_left new_batch_handler _ s1).
+    assert (H2 : ce s s2).
+    { subst s2. apply (fold_left_inv (fun t => ce s t)); [|exact H1].
+      intros t id Ht. eapply ce_trans; [exact Ht|apply new_handler_ce]. }
+    eapply ce_trans; [exact H2|apply ce_same; reflexivity].
+  - inversion E; subst. apply ce_same. reflexivity.
+  - apply ce_same. repeat dmn E; inversion E; subst; reflexivity.
+  - destruct (create_context _ _ _ _ _ _ _ _ _ _ _ _ _ _ _ _) as [[s2 id]|] eqn:E0; [|discriminate]. inversion E; subst.
+    apply ce_same. clear -E0. unfold create_context in E0. repeat dmn E0; inversion E0; subst; reflexivity.
+  - apply ce_same. unfold k_pause in E. repeat dmn E; inversion E; subst; reflexivity.
+  - apply ce_same. unfold k_start in E. repeat dmn E; inversion E; subst; reflexivity.
+  - apply ce_same. unfold k_kill in E. repeat dmn E; inversion E; subst; reflexivity.
+  - apply ce_same. unfold bind in E. repeat dmn E; inversion E; subst; reflexivity.
+Qed.
+
+Lemma apply_ce c s st : ce s (apply c s st).
+Proof.
+  destruct (is_module_call c st) eqn:E.
+  - destruct st; try discriminate. destruct m; try discriminate. simpl in E. unfold apply. cbn [exec_step exec_msg]. rewrite E.
+    destruct (call_module c s txh svc provs cons inok capd capa timeout rep freq total) as [s'| |] eqn:Ec; try (apply ce_same; reflexivity).
+    destruct (call_module_shape _ _ _ _ _ _ _ _ _ _ _ _ _ _ Ec) as (s1 & id & x & q' & E1 & _ & _ & _ & _ & _ & _ & _ & _ & _ & _ & _ & _ & _ & _ & _ & _ & _ & CB & _).
+    apply ce_same. rewrite CB. clear -E1. unfold create_context in E1. repeat dmn E1; inversion E1; subst; reflexivity.
+  - destruct (apply_no_msvc c s st E) as [Ea|Ea]; rewrite Ea; [apply apply_ce0; apply no_msvc_lt|apply ce_same; reflexivity].
+Qed.
+
+Lemma skipn_app_len {A} (l r : list A) : skipn (length l) (l ++ r) = r.
+Proof. induction l; simpl; [reflexivity|assumption]. Qed.
+
+(** what the step logged, as the driver prints it, extends the log *)
+Lemma step_cb c s st : cblog (apply c s st) = cblog s ++ skipn (length (cblog s)) (cblog (apply c s st)).
+Proof. destruct (apply_ce c s st) as (l & L). rewrite L at 2. rewrite skipn_app_len. exact L. Qed.
+
+Lemma cb_keys_resp_keys l : cb_keys l = resp_keys l.
+Proof.
+  unfold cb_keys, resp_keys. induction l as [|[[[[k i] b] n] o] l IH]; simpl; [reflexivity|].
+  unfold is_resp at 1. simpl. destruct (k =? 0); simpl; [f_equal|]; exact IH.
+Qed.
+
+Lemma run_app c : forall a b s, run c s (a ++ b) = run c (run c s a) b.
+Proof. induction a as [|st a IH]; intros b s; [reflexivity|]. cbn [app run]. apply IH. Qed.
+
+Lemma existsb_eqb_in {A} `{EqDec A} (k : A) l : existsb (eqb k) l = true <-> In k l.
+Proof.
+  rewrite existsb_exists. split.
+  - intros (x & Hin & E). apply (proj1 (eqb_true_iff k x)) in E. subst. exact Hin.
+  - intros Hin. exists k. split; [exact Hin|apply eqb_refl].
+Qed.
+
+Lemma NoDup_app_disj {A} (a b : list A) : NoDup (a ++ b) -> forall x, In x b -> ~ In x a.
+Proof.
+  induction a as [|y a IH]; simpl; intros Hnd x Hb Ha; [exact Ha|]. inversion Hnd as [|? ? Hn Hnd']; subst.
+  destruct Ha as [->|Ha]; [apply Hn; apply in_or_app; right; exact Hb|exact (IH Hnd' x Hb Ha)].
+Qed.
+
+(** ** C08, clause 7, the two history-wide lists: along the model's own trace the checker's
+    accumulator [fired] is [cb_keys] of the log so far; no response callback of the step repeats a
+    (context, batch) already fired, and the closed current batch of every stored module-owned
+    context has fired *)
+Theorem model_passes_C08_clause_7_history_lemma :
+  forall c steps st h0 t0 l0 univ,
+    NoDup (create_txhs (steps ++ [st])) ->
+    let s := run c (init h0 t0 l0) steps in
+    let o := obs_step univ c s st in
+    let fired := cb_keys (cblog s) in
+    cblog (init h0 t0 l0) = []
+    /\ fired ++ cb_keys (o_cb o) = cb_keys (cblog (apply c s st))
+    /\ (forall k, In k (cb_keys (o_cb o)) -> negb (existsb (eqb k) fired) = true)
+    /\ (forall e, In e (o_ctxs o) ->
+          (negb (t_mod (snd e)) || t_brun (snd e) || (t_batch (snd e) <? 1)
+           || existsb (eqb (fst e, t_batch (snd e))) (fired ++ cb_keys (o_cb o))) = true).
+Proof.
+  intros c steps st h0 t0 l0 univ Hnd s o fired.
+  assert (Es : apply c s st = run c (init h0 t0 l0) (steps ++ [st])) by (rewrite run_app; reflexivity).
+  destruct (callback_exactly_once_per_batch_m_lemma c (steps ++ [st]) h0 t0 l0 Hnd) as (Hnd1 & _ & Hf).
+  pose proof (reach_K c (steps ++ [st]) h0 t0 l0) as Hk. rewrite <- Es in Hnd1, Hf, Hk.
+  assert (Ef : fired ++ cb_keys (o_cb o) = cb_keys (cblog (apply c s st))).
+  { subst fired o. unfold obs_step. cbn [obs_of o_cb]. rewrite !cb_keys_resp_keys, <- resp_keys_app, <- step_cb. reflexivity. }
+  split; [reflexivity|]. split; [exact Ef|]. split.
+  - intros k Hin. apply negb_true_iff. destruct (existsb (eqb k) fired) eqn:Ex; [|reflexivity]. exfalso.
+    apply existsb_eqb_in in Ex. rewrite <- cb_keys_resp_keys, <- Ef in Hnd1. exact (NoDup_app_disj _ _ Hnd1 k Hin Ex).
+  - intros e Hin. rewrite Ef. subst o. unfold obs_step in Hin.
+    destruct (in_obs_ctxs univ _ _ _ (apply c s st) e Hk Hin) as (x & Hg & Ex). rewrite Ex. cbn [ctx_tuple t_mod t_brun t_batch].
+    destruct (x_mod x) eqn:Em; [|reflexivity]. destruct (x_brun x) eqn:Er; [reflexivity|]. destruct (x_batch x <? 1) eqn:Eb; [reflexivity|].
+    apply Z.ltb_ge in Eb. cbn [negb orb]. apply existsb_eqb_in. rewrite cb_keys_resp_keys. apply (Hf (fst e) x Hg Em Er). lia.
+Qed.
+
+(** the case the driver would print for the model, from a case the driver printed for the code *)
+Definition self_case (cs : case) : case :=
+  let '(c, o0, l) := cs in model_case (map fst (o_bals o0)) c (o_height o0) (o_time o0) (ledger_of o0) (map fst l).
